@@ -101,6 +101,11 @@ func genHosts(r *Rng, c *SrvConf) []*host {
 	if len(hs) >= 2 && r.Chance(15) { // two hardware addresses sending one and the same client identifier
 		hs[1].cid = hs[0].cid
 	}
+	if len(hs) >= 2 && r.Chance(20) { // a pair of long identifiers that differ only in their last byte
+		long := []byte{0xff, 1, 2, 3, 4, 0, 4, 0xaa, 0xbb, 0xcc, 0xdd, 0xee, 0xff, 0x10, 0x11, 0x12, 0x13, 0x14, 0x15, 0x16, 0x17, 0x18}
+		hs[0].cid = append(append([]byte(nil), long...), 1)
+		hs[1].cid = append(append([]byte(nil), long...), 2)
+	}
 	for _, cl := range c.Clients { // reserved hosts take part too
 		if r.Chance(70) {
 			h := &host{mac: cl.MAC, staticIP: cl.IP, flags: Pick(r, uint16(0), 0x8000)}
@@ -221,9 +226,9 @@ func TestSrvSeq(t *testing.T) {
 	r := NewRng(Seed(), "srvseq")
 	s := NewStream("srvseq")
 	defer s.Close()
-	n := EnvInt("HX_N", 250)
+	n := EnvInt("HX_N", 1200)
 	if Thorough() {
-		n = EnvInt("HX_N", 5000)
+		n = EnvInt("HX_N", 40000)
 	}
 	runCorpus(t, s) // minimised past failures first
 	for i := 0; i < n; i++ {
